@@ -2,6 +2,7 @@
 
 A spec is a nested tuple  (name, kind, payload, children)  where children are specs:
   kind 'leaf'   : returns payload
+  kind 'ctx'    : returns ["ctx", payload, <context variable k of the job, or "none">]
   kind 'raise'  : raises ValueError(payload)
   kind 'list'   : returns [child calls...] (a nested list of lazy calls)
   kind 'catch'  : returns catch(child0, ValueError, recover) (recover returns ('recovered', msg))
@@ -11,6 +12,7 @@ with opts = dict(limits=..., cache_scope=..., context=...).
 Equal specs are equal calls (twins) — the eval key is a function of the spec.
 """
 from redun import task
+from redun.context import get_context
 from redun.scheduler import catch
 from redun.functools import seq
 
@@ -29,6 +31,9 @@ def node(spec):
         return payload
     if kind == "raise":
         raise ValueError(payload)
+    if kind == "ctx":
+        # the value of context variable "k" in this job's context (final value depends on the context)
+        return ["ctx", payload, get_context("k", "none")]
     calls = [call(ch) for ch in children]
     if kind == "list":
         return [payload, calls]
